@@ -74,7 +74,15 @@ ENTRIES = [
          why="a fetched value is inserted into the cache (and its waiters answered through emplace)"),
     dict(props=["C06"], body=("foyer_memory::raw::RawFetch", "handle_target"), call=r"RawCache::<E, S, I>::insert_piece$", start=("arm", "Piece"),
          why="a piece loaded from disk is inserted into the cache (and its waiters answered through emplace)"),
+    dict(props=["C04", "C10"], body="re:^" + re.escape(B) + r"::recover::RecoverRunner::run::\{closure#0\}::\{closure#\d+\}$", inner_call=r"ops::FnMut::call_mut$", call=r"ops::FnMut::call_mut$", exact=True, start="entry",
+         why="every recovered tombstone is offered to the dedup table: otherwise a deleted key whose entry is still on disk comes back after a restart"),
+    # --- C12: a throttled disk lookup is remembered so that the origin's value is not written over a copy that may already be on disk
+    dict(props=["C12"], body=r"re:^foyer::hybrid::cache::HybridCache::get(_or_fetch)?::\{closure#0\}::\{closure#0\}::\{closure#0\}$", inner_call=r"Store::<K, V, S, P>::load$", call=r"atomic::Atomic::<bool>::store$", exact=True, start=("arm", "Throttled"),
+         why="Load::Throttled sets the context's throttled flag (read by the post-fetch enqueue guard)"),
+    dict(props=["C12"], body=("foyer_storage::filter::StorageFilter", "with_condition"), call=r"Vec::<T, A>::push$", start="entry", why="a configured admission condition is kept"),
     # --- C08: the key is part of the stored entry
+    dict(props=["C08"], body=("foyer_storage::serde::EntrySerializer", "serialize_key"), call=r"code::Code::encode$", start="entry",
+         why="serialize_key encodes the key into the entry"),
     dict(props=["C08"], body=("foyer_storage::serde::EntrySerializer", "serialize"), call=r"EntrySerializer::serialize_key$|code::Code::encode$", start="entry_ok",
          why="the key is serialized after the value: a lookup compares the decoded key with the requested one"),
     # --- flusher main loop
